@@ -105,6 +105,8 @@ type State struct {
 	model    map[string]uint64
 	fallbacks []*Solver
 	firstRange bool
+	schedPts []schedPt
+	objAcc   map[any]*accRec
 	fromSnap bool
 	jsonVals map[*Object]Value
 	choices  []int
@@ -141,6 +143,22 @@ func (s *State) fresh(prefix string, w int) *Term {
 	v := Var(fmt.Sprintf("%s!%d", prefix, len(s.vars)), w)
 	s.noteVar(v)
 	return v
+}
+
+// uniqueName reserves a model name (same scheme as named) without creating a variable.
+func (s *State) uniqueName(name string) string {
+	n := sanitize(name)
+	if s.varSeen[n] {
+		for i := 2; ; i++ {
+			c := fmt.Sprintf("%s__%d", n, i)
+			if !s.varSeen[c] {
+				n = c
+				break
+			}
+		}
+	}
+	s.varSeen[n] = true
+	return n
 }
 
 func (s *State) named(name string, w int) *Term {
